@@ -218,6 +218,40 @@ def overflow_program(rnd):
     }
 
 
+def syncshared_program(rnd):
+    """A running task waits synchronously (.value()) for a task object that an ancestor has already handed to the
+    scheduler in the same yield but that has not started yet."""
+    n = [0]
+
+    def item(k):
+        n[0] += 1
+        return ["leaf", ["item", k, "ss%d" % n[0]]]
+
+    waiter = [["syncshared", 0], ["yield", item(rnd.randrange(2))]]
+    if rnd.random() < 0.5:
+        waiter.insert(0, ["yield", item(1)])
+    if rnd.random() < 0.4:
+        waiter = [["with", rnd.choice([["actx", "ssc"], ["ov", "sv0", 55]]), waiter], ["read", "sv0"]]
+    shared = [["yield", item(0)]] + ([["yield", item(1)]] if rnd.random() < 0.5 else [])
+    members = [["leaf", ["call", "ssw", 1]], ["leaf", ["shared", 0]]]
+    if rnd.random() < 0.5:
+        members.append(["leaf", ["call", "ssw2", 1]])
+    rnd.shuffle(members)
+    return {
+        "nodes": [
+            {"style": "asynq", "ret": "return", "body": [["yield", [rnd.choice(["list", "tuple"]), members]], ["yield", item(0)]]},
+            {"style": rnd.choice(["asynq", "method"]), "ret": "return", "body": waiter},
+            {"style": "asynq", "ret": "return", "body": shared},
+        ],
+        "root": 0,
+        "shared": [2],
+        "kinds": 2,
+        "faults": {},
+        "flush_faults": {},
+        "defaults": {"sv0": "dflt-sv0", "sv1": "dflt-sv1", "at0": "dflt-at0"},
+    }
+
+
 def run_once(prog, how, seed, settings, clock, outfile, in_thread=False):
     """One run of the program under the given option settings. in_thread: on a brand-new thread (fresh
     thread-local scheduler / profiler state, no profiler.reset() beforehand), as a worker thread would run it."""
@@ -316,6 +350,9 @@ def run_unit(unit, progress):
         if i % 12 == 2:
             prog["evil"] = [rnd.choice(["switch", "override", "preflush"]), rnd.randrange(2)]
             inc("programs_in_which_the_schedulers_flush_call_raises")
+        if i % 12 == 7:
+            prog = syncshared_program(rnd)
+            inc("programs_waiting_synchronously_for_a_task_already_on_the_schedulers_stack")
         if i % 12 == 9:
             prog = overflow_program(rnd)
             inc("programs_recovering_from_the_recursion_guard_in_a_nested_sync_call")
